@@ -132,6 +132,58 @@ def gen_program(rnd, stream):
     return '\n'.join(g.lines) + '\n'
 
 
+def gen_nested_try(rnd):
+    """stream 'tries': two nested try statements with typed handlers; an explicit raise in the inner body (after an if /
+    under an if / in a loop) of a type only the OUTER handler catches; a variable the if both reads and writes, read
+    again only in the outer handler, and rebound on the normal path (inner handler, statement after the inner try):
+    the variable is an output of the if on the executed path through the outer handler"""
+    k = [0]
+
+    def K():
+        k[0] += 1
+        return k[0]
+    inner_t, outer_t = rnd.sample(['E0', 'E1', 'E2'], 2)
+    v, u = rnd.sample(['x', 'y', 'z', 'w'], 2)
+    L = ['def f(a, b, c, m, o, d, e):', '    %s = T(%d, a)' % (v, K()), '    %s = T(%d, b)' % (u, K())]
+    wrap = rnd.choice(['', '', 'while', 'for'])
+    ind = '    '
+    if wrap == 'while':
+        L.append(ind + 'while D(%d):' % K())
+        ind += '    '
+    elif wrap == 'for':
+        L.append(ind + 'for i1 in L(%d):' % K())
+        ind += '    '
+    L += [ind + 'try:', ind + '    try:']
+    b = ind + '        '
+    L.append(b + 'if D(%d):' % K())
+    L.append(b + '    %s = T(%d, %s)' % (v, K(), v) if rnd.random() < 0.8 else b + '    %s = T(%d, a)' % (v, K()))
+    if rnd.random() < 0.3:
+        L.append(b + '    %s = T(%d, %s)' % (u, K(), u))
+    place = rnd.choice(['after', 'after', 'inside', 'guarded'])
+    if place == 'inside':
+        L.append(b + '    raise %s()' % outer_t)
+    elif place == 'after':
+        L.append(b + 'raise %s()' % outer_t)
+    else:
+        L += [b + 'if D(%d):' % K(), b + '    raise %s()' % outer_t]
+    if place != 'after':
+        L.append(b + '%s = T(%d, %s)' % (u, K(), u))
+        if rnd.random() < 0.4:
+            L += [b + 'if D(%d):' % K(), b + '    raise %s()' % inner_t]
+    L += [ind + '    except %s:' % inner_t, ind + '        %s = T(%d)' % (v, K())]
+    if rnd.random() < 0.8:
+        L.append(ind + '    %s = T(%d)' % (v, K()))
+    if rnd.random() < 0.5:
+        L.append(ind + '    %s = T(%d, %s)' % (u, K(), u))
+    L.append(ind + 'except %s:' % outer_t)
+    L.append(ind + '    ' + rnd.choice(['return T(%d, %s, %s)' % (K(), v, u), '%s = T(%d, %s)' % (u, K(), v),
+                                         '%s = T(%d, %s, %s)' % (v, K(), v, u)]))
+    if wrap:
+        L.append(ind + '    break')
+    L.append('    return T(%d, %s, %s)' % (K(), v, u))
+    return '\n'.join(L) + '\n'
+
+
 CORPUS = [
     # (stream, source) -- hand-written shapes that must always be exercised
     ('main', "def f(a, b, c, m, o, d, e):\n    x = 0\n    if D(1):\n        d['k'] = T(2)\n        o.v = T(3)\n        x = x + 1\n    for y in L(4):\n        " + DIRECTIVE + "(maximum_iterations=3)\n        x += y\n        if D(5, x):\n            break\n    while D(6):\n        " + DIRECTIVE + "(parallel_iterations=K1, swap_memory=True)\n        x += 1\n        for z in L(7):\n            " + DIRECTIVE + "(maximum_iterations=K2)\n            o.v += z\n    return T(8, x)\n"),
@@ -140,6 +192,7 @@ CORPUS = [
     ('main', "def f(a, b, c, m, o, d, e):\n    w = T(1)\n    for w in L(2):\n        if D(3, w):\n            w = T(4, w)\n    return T(5, w)\n"),
     ('scopes', "def f(a, b, c, m, o, d, e):\n    x = T(1)\n    def g1():\n        global x\n        x = T(2)\n        return T(3)\n    for y in L(4):\n        x = x + g1()\n    return T(5, x)\n"),
     ('scopes', "def f(a, b, c, m, o, d, e):\n    x = T(1)\n    z = 0\n    class C1:\n        global x\n        x = 5\n    def g2():\n        nonlocal z\n        z = z + T(2)\n        return T(3)\n    if D(4):\n        x = x + g2()\n        z = z + 1\n    while D(6):\n        z = z + g2()\n    return T(5, x, z)\n"),
+    ('tries', "def f(a, b, c, m, o, d, e):\n    x = T(1, a)\n    try:\n        try:\n            if D(2):\n                x = T(3, x)\n            raise E1()\n        except E0:\n            x = T(4)\n        x = T(5)\n    except E1:\n        return T(6, x)\n    return T(7, x)\n"),
     ('missing', "def f(a, b, c, m, o, d, e):\n    if D(1):\n        d['j'] = T(2)\n    if D(3):\n        o.w = T(4)\n    return T(5)\n"),
     ('order', "def f(a, b, c, m, o, d, e):\n    x = 0\n    while D(1):\n        e[x] = T(2, x)\n        x = x + 1\n    return T(3, x)\n"),
 ]
@@ -1193,7 +1246,8 @@ def run_fn(h, mod, fn, decisions, monitor=None):
 def check(run):
     thorough = run.tier == 'thorough'
     run.rule = ('programs: hand corpus + seeded progs.Gen extended with nested defs / class bodies declaring a local of the '
-                'enclosing function global / nonlocal (stream "scopes" and main), composite state (o.v, d[\'k\'], d[0]; stream '
+                'enclosing function global / nonlocal (stream "scopes" and main), nested tries with typed handlers and raises that only '
+                'the outer handler catches (stream "tries"), composite state (o.v, d[\'k\'], d[0]; stream '
                 '"missing": o.w / d[\'j\'] unset at entry; stream "order": e[x] with x reassigned) and set_loop_options '
                 'directives as first loop statement; each converted with instrumented operators and run under several '
                 'decision vectors; evaluations = dynamic operator invocations checked + static cases + dynamic model cases; '
@@ -1212,13 +1266,15 @@ def check(run):
 
     rnd = random.Random(run.seed)
     h = Harness(run)
-    nprog = ({'main': 300, 'missing': 50, 'order': 50, 'scopes': 60} if not thorough else
-             {'main': 1200, 'missing': 200, 'order': 200, 'scopes': 250})
+    nprog = ({'main': 290, 'missing': 50, 'order': 50, 'scopes': 60, 'tries': 40} if not thorough else
+             {'main': 1200, 'missing': 200, 'order': 200, 'scopes': 250, 'tries': 250})
     nvec = 3 if not thorough else 5
     programs = list(CORPUS) + corpus_files()
     for stream in ('main', 'missing', 'order', 'scopes'):
         for _ in range(nprog[stream]):
             programs.append((stream, gen_program(rnd, stream)))
+    for _ in range(nprog['tries']):
+        programs.append(('tries', gen_nested_try(rnd)))
     failures = []      # (what, replay dict, classify)
     scope_checked = {'functions': 0, 'statements': 0, 'failures': 0}
     conv_errors = 0
